@@ -635,6 +635,30 @@ def _big_clauses(e):
             cs.append("%d = 1" % st[0])
         for a, b in zip(st, st[1:]):
             cs.append("NextStep(%d, %d, %d) = %d" % (T, J, a, b))
+    elif e["op"] == "big_search":
+        if "asked" not in o:
+            return ["FALSE"]
+        sp = i["supply"]
+        if sp["k"] == "dedicated":
+            Q = D = P = 1
+        else:
+            Q, P = sp["Q"], sp["P"]
+            D = sp.get("D", P)
+        a, w, off, lim, res = o["asked"], o["w"], i["off"], i["lim"], o["res"]
+        W = lambda x: " + ".join(["%d" % i["B0"]] + ["%d * Eta(%d, %d, %d)" % (t["C"], t["T"], t["J"], x) for t in i["tasks"]])
+        if not a or len(a) != len(w):
+            return ["FALSE"]
+        cs.append("%d = 1" % a[0])
+        for x, v in zip(a, w):
+            cs.append("%s = %d" % (W(x), v))                    # the workload the closure returned is the closed form
+        for k in range(len(a) - 1):                             # each iterate is the supply inverse of the workload
+            cs.append("%d <= %d /\\ %d > %d /\\ IsLeast(%d, %d, %d, %d, %d)" % (a[k], lim, a[k + 1], a[k], Q, D, P, a[k + 1] + off, w[k]))
+        if "ok" in res:
+            cs.append("%d <= %d /\\ %d <= %d /\\ IsLeast(%d, %d, %d, %d, %d)" % (a[-1], lim, res["ok"], a[-1], Q, D, P, res["ok"] + off, w[-1]))
+        elif "err" in res:
+            cs.append("%d <= %d /\\ Sbf(%d, %d, %d, %d) < %d" % (a[-1], lim, Q, D, P, off + lim, w[-1]))
+        else:
+            cs.append("FALSE")
     elif e["op"] == "scale":
         if "small" not in o or "big" not in o:
             return ["FALSE"]
